@@ -13,7 +13,7 @@ RULE = ("bin()/hex()/base_repr() of an object holding a given code vs string ima
         "random codes for n_word in {15,16,17,31,32,33,53,63,64,65,100,128,256} and random widths; scalars, 1-d and 2-d arrays. Non-trivial = negative code, or n_word not a multiple of 4, or n_frac in {0, n_word}; "
         "distinct = distinct (format, code/array, option) keys.")
 ASSUMPTIONS = ['objects are created from raw codes', 'signed formats need n_word>=2 for parsing (a 1-bit signed literal is rejected by the parser by design)']
-EXHAUSTIVE = True
+EXHAUSTIVE = False    # the whole quantifier is not enumerated; complete sub-domains are listed in EXHAUSTIVE_SUBDOMAINS
 EXHAUSTIVE_SUBDOMAINS = {'quick': ['all codes x all n_frac 0..n_word for n_word<=8, both signednesses: rendering + all parse routes'], 'thorough': ['same for n_word<=10']}
 REQUIRED_CLASSES = {'negative': 500, 'wide>=64': 200, 'array': 200, 'array2d': 50}
 WIDTHS = [15, 16, 17, 31, 32, 33, 53, 63, 64, 65, 100, 128, 256]
